@@ -369,7 +369,12 @@ func (h *hydra) GetLocker() lock.Lock {
 type SwampWaiter struct {
 	cond  *sync.Cond
 	ready bool
-	count int32 // store the number of waiting goroutines
+	// count is the number of SummonSwamp callers that hold a reference to this waiter
+	// (the owner and everyone parked on cond); guarded by cond.L
+	count int32
+	// retired is set, under cond.L, when the last reference removed the waiter from
+	// summoningSwamps; a caller that loaded the waiter before that must fetch the current one
+	retired bool
 }
 
 func newSwampWaiter() *SwampWaiter {
@@ -392,20 +397,33 @@ func (h *hydra) SummonSwamp(ctx context.Context, islandID uint64, swampName name
 	// if the ok is true then the swamp is already summoning, so we need to wait for the other process to finish the summoning process
 	// if the ok is false then the swamp is not summoning, so we can start the summoning process and store the swamp in the map
 	// immediately
-	result, _ := h.summoningSwamps.LoadOrStore(swampName.Get(), newSwampWaiter())
-	waiter, _ := result.(*SwampWaiter)
-
-	// lezárjuk a következő kódrészt, így csak egyetlen rutin futhatja egyszerre egy domain néven belül
-	waiter.cond.L.Lock()
+	var waiter *SwampWaiter
+	for {
+		result, _ := h.summoningSwamps.LoadOrStore(swampName.Get(), newSwampWaiter())
+		waiter, _ = result.(*SwampWaiter)
+		// lezárjuk a következő kódrészt, így csak egyetlen rutin futhatja egyszerre egy domain néven belül
+		waiter.cond.L.Lock()
+		if !waiter.retired {
+			break
+		}
+		// the slot was removed between LoadOrStore and Lock, take the current one
+		waiter.cond.L.Unlock()
+	}
+	// every caller holds exactly one reference from here until it leaves the function
+	waiter.count++
 	for waiter.ready {
 		select {
 		case <-ctx.Done():
 			// Ha a kontextus megszakad, jelezzük a többi várakozó goroutinnak, hogy ne várjanak tovább
+			waiter.count--
+			if waiter.count == 0 {
+				waiter.retired = true
+				h.summoningSwamps.Delete(swampName.Get())
+			}
 			waiter.cond.Broadcast()
 			waiter.cond.L.Unlock()
 			return nil, ctx.Err() // Visszatérünk a kontextus hibaüzenetével
 		default:
-			atomic.AddInt32(&waiter.count, 1)
 			waiter.cond.Wait()
 		}
 	}
@@ -416,14 +434,15 @@ func (h *hydra) SummonSwamp(ctx context.Context, islandID uint64, swampName name
 		// Swamp véglegesítése után
 		waiter.cond.L.Lock()
 		waiter.ready = false
-		waiter.cond.Broadcast() // Értesítjük a többi várakozót
-		waiter.cond.L.Unlock()
 		// csökkentjük a várakozó goroutinok számát
-		atomic.AddInt32(&waiter.count, -1)
+		waiter.count--
 		// ha nincs több várakozó goroutin, akkor töröljük a várakozó mapből a swampot
-		if atomic.LoadInt32(&waiter.count) == 0 {
+		if waiter.count == 0 {
+			waiter.retired = true
 			h.summoningSwamps.Delete(swampName.Get())
 		}
+		waiter.cond.Broadcast() // Értesítjük a többi várakozót
+		waiter.cond.L.Unlock()
 	}()
 
 	var swampObject swamp.Swamp
